@@ -7,7 +7,7 @@
 #include "vh.h"
 
 static binson_parser *P;
-static uint64_t n_accept, n_reject, n_deptherr;
+static uint64_t n_accept, n_reject, n_deptherr, hist_counter, n_history;
 
 static const int DEPTHS[] = { 1, 2, 3, 10, 255 };
 
@@ -19,6 +19,17 @@ static bool check_one(const uint8_t *doc, size_t n, int root_kind, int max_depth
     memset(st, 0x3C, sizeof(binson_state) * (size_t)max_depth);
     P->state = st; P->max_depth = (uint_fast8_t)max_depth;
     bool init = (root_kind == K_OBJ) ? binson_parser_init_object(P, exact, n) : binson_parser_init_array(P, exact, n);
+    if (init && (hist_counter++ % 5) == 0) {
+        /* the verdict must not depend on what the object did since init: an abandoned walk and/or a latched error */
+        bool b = (root_kind == K_OBJ) ? binson_parser_go_into_object(P) : binson_parser_go_into_array(P);
+        for (int i = 0; b && i < 3 + (int)(hist_counter % 4); i++) {
+            if (!binson_parser_next(P)) break;
+            binson_type ty = binson_parser_get_type(P);
+            if (ty == BINSON_TYPE_OBJECT) binson_parser_go_into_object(P); else if (ty == BINSON_TYPE_ARRAY) binson_parser_go_into_array(P);
+        }
+        if ((hist_counter / 5) % 2) binson_parser_next_ensure(P, (binson_type)77);
+        n_history++;
+    }
     bool got = init && binson_parser_verify(P);
     binson_err ef = P->error_flags;
     vrec R = vrecognise(doc, n, root_kind, max_depth);
@@ -281,7 +292,7 @@ int main(int argc, char **argv)
             enum_case(idx, maxlen);
         }
         vw_count("alphabet_tokens", VA.wid == 0 ? (uint64_t)NT : 0);
-        vw_count("verify_accepted", n_accept); vw_count("verify_rejected", n_reject); vw_count("depth_first_obstacle", n_deptherr);
+        vw_count("verify_accepted", n_accept); vw_count("verify_rejected", n_reject); vw_count("depth_first_obstacle", n_deptherr); vw_count("verify_after_abandoned_walk_or_error", n_history);
         return vw_finish();
     }
     vcorpus_load(VA.repo);
@@ -292,6 +303,6 @@ int main(int argc, char **argv)
         if (k == 0 && VA.wid < 4) { ladder_cases(&r); vw_count("ladder_batches", 1); continue; }
         random_case(&r, k * VA.nworkers + VA.wid);
     }
-    vw_count("verify_accepted", n_accept); vw_count("verify_rejected", n_reject); vw_count("depth_first_obstacle", n_deptherr);
+    vw_count("verify_accepted", n_accept); vw_count("verify_rejected", n_reject); vw_count("depth_first_obstacle", n_deptherr); vw_count("verify_after_abandoned_walk_or_error", n_history);
     return vw_finish();
 }
